@@ -59,14 +59,13 @@ class ActionTable:
                     self.by_key[k] = i
                     self.keys.append(k)
         else:
+            # a definition is expressible in the parameterised space iff it
+            # is the first one for its (service, OS) / (process, OS) pair;
+            # decided from the configuration, not by asking the decoder
+            # (a wrong decode must show up as a divergence, not be hidden)
             for k, vec in self._param_vectors():
-                try:
-                    a = env.action_space.get_action(list(vec))
-                except Exception:
-                    continue
-                if self.key_of(a) == k:
-                    self.by_key[k] = list(vec)
-                    self.keys.append(k)
+                self.by_key[k] = list(vec)
+                self.keys.append(k)
         for k in self.keys:
             self.by_target.setdefault(k[1], []).append(k)
 
@@ -83,11 +82,19 @@ class ActionTable:
             for kind in ("service_scan", "os_scan", "subnet_scan",
                          "process_scan"):
                 yield (kind, (s, h), kind), [types[kind], s - 1, h, 0, 0, 0]
+            seen = set()
             for name, e in cfg.exploits.items():
+                if (e["service"], e["os"]) in seen:
+                    continue
+                seen.add((e["service"], e["os"]))
                 osi = 0 if e["os"] is None else cfg.os.index(e["os"]) + 1
                 yield ("exploit", (s, h), name), \
                     [0, s - 1, h, osi, cfg.services.index(e["service"]), 0]
+            seen = set()
             for name, p in cfg.privescs.items():
+                if (p["process"], p["os"]) in seen:
+                    continue
+                seen.add((p["process"], p["os"]))
                 osi = 0 if p["os"] is None else cfg.os.index(p["os"]) + 1
                 yield ("privesc", (s, h), name), \
                     [1, s - 1, h, osi, 0, cfg.processes.index(p["process"])]
@@ -343,7 +350,8 @@ class EnvSim:
             self.counters.hit("fault.encoding." + enc)
         if self.episode_over:
             self.counters.hit("fault.post_terminal")
-        rec = self.oracle.real_step(obj, x, plain, self._draws_for(op))
+        rec = self.oracle.real_step(obj, x, plain, self._draws_for(op),
+                                    interpose=op.get("interpose"))
         self.steps_total += 1
         self.rec_out("step", state=rec["post_t"].tobytes(),
                      obs=np.asarray(rec["obs_out"]).tobytes(),
@@ -381,8 +389,18 @@ class EnvSim:
                 self.exec_op({"op": "reset"})      # double reset
 
     def _gen_query(self, wl):
-        what = wl.choice(["goal", "mask", "readable", "roundtrip",
-                          "contains"])
+        kinds = []
+        if "C06" in self.props:
+            kinds.append("goal")
+        if "C11" in self.props:
+            kinds.append("mask")
+        if "C09" in self.props:
+            kinds += ["readable", "roundtrip"]
+        if "C10" in self.props:
+            kinds.append("contains")
+        if not kinds:
+            kinds = ["goal", "mask", "readable", "roundtrip", "contains"]
+        what = wl.choice(kinds)
         src = "cur"
         if what == "goal" and self.state_sids and wl.random() < 0.5:
             src = wl.choice(self.state_sids)
@@ -486,8 +504,21 @@ class EnvSim:
                     return {"op": "step", "a": ["noop", [1, 0], "noop"],
                             "vec": vec, "enc": "list",
                             "u": self._gen_draws(fl, swarm, None)}
-        return {"op": "step", "a": [k[0], list(k[1]), k[2]], "enc": enc,
-                "u": self._gen_draws(fl, swarm, a)}
+        op = {"op": "step", "a": [k[0], list(k[1]), k[2]], "enc": enc,
+              "u": self._gen_draws(fl, swarm, a)}
+        if "C13" in self.props and self.state_sids and fl.random() < 0.4:
+            # look-ahead on other states between the companion generative
+            # step and the real step
+            inter = []
+            for _ in range(fl.randint(1, 3)):
+                src = fl.choice(self.state_sids)
+                st2 = read_status(self.states[src], self.cfg)
+                k2 = self._pick_action(wl, swarm, st2)
+                a2 = self._act_of_key(k2)
+                inter.append({"src": src, "a": [k2[0], list(k2[1]), k2[2]],
+                              "u": self._gen_draws(fl, swarm, a2)})
+            op["interpose"] = inter
+        return op
 
     def _noop_vector(self, wl):
         """A parameter vector of an undefined exploit/escalation combination
